@@ -375,7 +375,16 @@ def run_fit(case):
                         raise Discard("profile never rises by 1 within 4 sigma on one side")
                     if not (0.4 <= rises[1] <= 2.5) or any(b < a - 1e-3 for a, b in zip(rises[:6], rises[1:6])):
                         raise Discard("strongly non-parabolic / non-monotone profile (rise at 1 sigma outside [0.4, 2.5]): not well-posed for this query")
-                    raise Violation(f"asymmetric-rise[{backend}{':dyn' if dyn else ''}]", f"{tag}: {nm} {'down' if side == 0 else 'up'} error {ae[i, side]!r}: the profile has risen by {rise!r} there, not 1")
+                    facet = f"asymmetric-rise[{backend}{':dyn' if dyn else ''}]"
+                    if backend == "iminuit":
+                        # bug model of KF-C07-6: MINUIT itself flags the MINOS result of this parameter as invalid; kafe2 hands the numbers on
+                        try:
+                            me = fit._fitter._minimizer._get_iminuit().merrors[nm]
+                            if not me.is_valid:
+                                facet = "asymmetric-rise-minos-flagged-invalid[iminuit]"
+                        except Exception:  # noqa
+                            pass
+                    raise Violation(facet, f"{tag}: {nm} {'down' if side == 0 else 'up'} error {ae[i, side]!r}: the profile has risen by {rise!r} there, not 1")
         for i in Fidx:
             if np.any(ae[i] != 0):
                 raise Violation("asymmetric-fixed", f"{tag}: fixed {names[i]}: {ae[i].tolist()}")
@@ -431,6 +440,9 @@ def run_fit(case):
 
 
 KNOWN = {
+    # iminuit backend: MinimizerIMinuit.asymmetric_parameter_errors returns the numbers of Minuit.minos() without looking at the validity flags MINUIT
+    # attaches to them (merrors[par].is_valid); on non-parabolic profiles MINOS gives up (invalid) and the reported 'error' is not a crossing
+    "KF-C07-6": lambda sub, case, v: sub == "fit" and v.facet == "asymmetric-rise-minos-flagged-invalid[iminuit]",
     # MinimizerBase._calculate_asymmetric_parameter_errors (used by the scipy backend) re-minimises with one parameter pinned inside a secant
     # root finder; every inner minimize() recomputes the parameter covariance (numdifftools Hessian + inverse) and nothing checks whether
     # the inner minimisations converged: on well-posed fits the query raises LinAlgError('Singular matrix') or stops at a rise != 1.
